@@ -20,7 +20,7 @@ LEVEL_TEXT = ('Static decision of the structural necessary conditions: no nondet
               'state only through the iteration call; the stop routine writes nothing '
               'but its own flag, which nobody reads; the first-iteration flag has one writer; accuracy and counters '
               'are monotone and the parameters read-only, so a finished solver stays finished and - with the '
-              'pre-tested loop - a second Solve performs no trial.')
+              'pre-tested loop - a second Solve performs no trial; nothing the library writes outlives a Solver in a process-wide object.')
 EXPLANATION = ('Reachability of nondeterministic external calls over the call graph, a taint check of their results '
                'on the solve driver\'s paths, an upward-exposed-use analysis of the iteration loop body, typestate of '
                'the flag on path summaries, and effect sets of the stop routine; monotonicity rules are shared with '
